@@ -166,6 +166,10 @@ def _verify_instance(eng: Engine, c: Contract, src: source.FuncSrc, prop: str, i
 				eng.oblige(fn, f'raises-iff:{e}', State(old.env, sx.pc), z3.Not(t), f'normal return implies not ({cond})', src.lineno)
 		else:
 			exc: ExcVal = payload
+			if any(eng.exc_subclass(exc.cname, e) for e in c.raise_unchanged):
+				for pname, pty in ptys.items():
+					if isinstance(pty, TRec) and pname in sx.env and isinstance(sx.env[pname].ty, TRec):
+						eng.oblige(fn, f'raise-unchanged:{exc.cname}', sx, sx.env[pname].term == old.env[pname].term, f'{pname} unchanged when {exc.cname} is raised', src.lineno)
 			allowed = [e for e in c.raises if eng.exc_subclass(exc.cname, e)]
 			if not allowed:
 				eng.oblige(fn, f'raises:{exc.cname}', sx, z3.BoolVal(False), f'{exc.cname} may escape but is not in raises {sorted(c.raises)}', src.lineno)
